@@ -68,6 +68,7 @@ Judge(r) ==
       /\ Flag(C04_Owner(g2), "C04", "Owner", r, t)
       /\ Flag(C04_EACL(g2), "C04", "EACL", r, t)
       /\ Flag(C04_Alias(g2), "C04", "Alias", r, t)
+      /\ Flag(C04_AliasRecord(g2), "C04", "AliasRecord", r, t)
       /\ Flag(C04_Lists(g2) /\ NoDup(r.obs), "C04", "Lists", r, t)
       /\ Flag(C04_Count(g2), "C04", "Count", r, t)
       /\ Flag(C04_Final(g, e), "C04", "Final", r, t)
